@@ -325,6 +325,10 @@ class LocalShare:
         if not os.path.isdir(self.__path):
             return 0
 
+        # Nothing was installed yet if there is no repository meta file.
+        if not os.path.exists(os.path.join(self.__path, "repo.json")):
+            return 0
+
         # Create a temporary attic directory. All garbage collected packages
         # are moved there to delete them without holding any locks.
         repoSize = 0
